@@ -88,9 +88,12 @@ def replayState (st : St) (output : Grol.Wire.Bytes) : St :=
     | [] => { st with outs := [[output]] }
     | o :: rest => { st with outs := (output :: o) :: rest }
 
-/-- (a) replay: on a cache hit `applyFunction` returns the stored result, and the state changes
+/-- (a) replay: on a cache hit (the cache is not skipped: not a recursive call from a frame holding a local function)
+`applyFunction` returns the stored result, and the state changes
 only by appending the stored output to the current writer (nothing at all for an empty output) -/
 theorem C04.replay (fuel : Nat) (f : FuncVal) (args : List Obj) (st : St) (v : Obj) (output : Grol.Wire.Bytes)
+    (cf : Frame) (hcf : st.frames[st.cur]? = some cf)
+    (hns : (cf.localFunc && sameFunction cf f) = false)
     (h : outcome (cacheGet f.key args) st = .ok (some (v, output))) :
     outcome (applyFunction (fuel + 1) (.func f) args) st = .ok v ∧
     stateAfter (applyFunction (fuel + 1) (.func f) args) st = replayState st output := by
@@ -99,6 +102,12 @@ theorem C04.replay (fuel : Nat) (f : FuncVal) (args : List Obj) (st : St) (v : O
   cases h
   rw [outcome_eq, stateAfter_eq]
   unfold applyFunction
+  have hce : runM curEnv st = (.ok st.cur, st) := rfl
+  rw [runM_bind, hce]
+  dsimp only
+  rw [runM_bind, runM_getFrame hcf]
+  dsimp only
+  simp only [hns, Bool.false_eq_true, if_false]
   rw [runM_bind, hr]
   unfold replayState
   dsimp only
